@@ -518,7 +518,7 @@ def run(ctx):
         ctx.violation('%s|%s' % (key, ','.join(kinds)),
                       '%s  [fails on %d site(s): %s%s]' % (desc, len(where), ' '.join(where[:8]),
                                                           ' ...' if len(where) > 8 else ''), case)
-    ctx.max_reports = 60
+    ctx.max_reports = 300
     ctx.assumptions += [
         'inputs are symbol trees (what the C parser hands to Python), see DESIGN 1.1; miniature GLib/GObject/Gio GIRs',
         'GType data come from a generated dump (class FooObj with one signal), not from a running library',
